@@ -2,7 +2,7 @@
     what ParseAndValidate answered in several runs), run the model and the Spec oracle, compare.
     Executable only. *)
 From Coq Require Import List NArith ZArith Bool String Ascii.
-From ApiFu Require Import Base.Sexp Vld.Ast Vld.Inspect Vld.Decode Vld.TypeInfoModel Vld.ValidatorModel Vld.ValidSpec.
+From ApiFu Require Import Base.Sexp Vld.Ast Vld.Inspect Vld.Decode Vld.TypeInfoModel Vld.ValidatorModel Vld.ValidSpec Vld.Hyps.
 Import ListNotations.
 Local Open Scope string_scope.
 
@@ -114,6 +114,8 @@ Definition check (c : sexp) : sexp :=
           match as_list_of as_bytes fs, dec_schema (SL (SSym "schema" :: sch)), dec_doc (SL (SSym "doc" :: dc)),
                 map_opt dec_run rs, as_list_of as_N ls with
           | Some F, Some Sc, Some D, Some (r0 :: runs), Some lines =>
+              (* the hypotheses the theorems make about schemas must hold of every generated schema *)
+              if negb (schema_ok Sc) then v_bad "schema-hypotheses-do-not-hold" else
               let m1 := validate_model repaired id_order Sc F D in
               let m2 := validate_model repaired rev_order Sc F D in
               let stable := pos_list_eqb (outcome_locs m1) (outcome_locs m2) in
